@@ -85,7 +85,9 @@ def expand(job):
         if "dec" in p and len(p["dec"]) > 6:
             p["dec"] = p["dec"][:6]
         if p["y"] < 0 or p["y"] > 9999:
-            p["xd"] = 2 if abs(p["y"]) <= 999999 else 3
+            p["xd"] = rnd.choice([2, 3, 4]) if abs(p["y"]) <= 999999 else 3
+        elif rnd.random() < 0.15:
+            p["xd"] = rnd.choice([1, 2, 3])      # several digit settings in one process (dumpers are cached per setting)
         # years at the edge of the dumper's range would be pushed out of it by a literal-zone format
         inner = (1 <= p["y"] <= 9998) if not p.get("xd") else abs(p["y"]) <= 10 ** (4 + p["xd"]) - 3
         fm = formats(rnd, p) if inner else []
